@@ -433,12 +433,12 @@ func watchdog() time.Duration {
 	if tier == "thorough" {
 		return 1800 * time.Second
 	}
-	return 600 * time.Second
+	return 300 * time.Second
 }
 
 func tailOf(s string, n int) string {
 	// prefer the first fatal/panic/race line and what follows
-	for _, marker := range []string{"WARNING: DATA RACE", "fatal error:", "unexpected fault address", "panic:", "SIGBUS", "SIGSEGV"} {
+	for _, marker := range []string{"WARNING: DATA RACE", "fatal error: runaway allocation", "fatal error:", "unexpected fault address", "panic:", "SIGBUS", "SIGSEGV"} {
 		if i := strings.Index(s, marker); i >= 0 {
 			s = s[i:]
 			break
